@@ -649,6 +649,39 @@ def family_cases():
       out.append(("family-directives", "def g(*a): return a\ndef f(x):\n  v = %s\n" % call))
       out.append(("family-directives", "def g(*a): return a\nclass K:\n  def m(self, x):\n    return %s\n  z = 1\n" % call.replace("\n", "\n  ")))
       out.append(("family-directives", "def g(*a): return a\nx = 0\nw = %s\n" % call.replace("\n  ", "\n")))
+  # expression forms whose opcodes pop a flag-dependent number of operands, in every control-flow context that merges
+  # frame states (loop back edges, branches inside loops, comprehensions, try/finally, with): a handler that pops one
+  # operand too few or too many only shows where two states of different depth meet
+  forms = []
+  for conv in ("", "!r", "!s", "!a"):
+    for spec in ("", ":>10", ":{w}", ":{w}.{w}", ":x<{w}"):
+      forms.append("f'{v%s%s}'" % (conv, spec))
+      forms.append("f'a{v%s%s}b{w%s}'" % (conv, spec, conv))
+  forms += ["'%-12s' % (v,)", "'%s=%r' % (v, w)", "'%5d|%-5s' % (w, v)", "v[w:]", "v[:w]", "v[w:w]", "v[w:w:w]", "v[::w]",
+            "g(v, *xs, k=w, **kw)", "g(*xs)", "g(**kw)", "g(v, k=w)", "v < w < g(v)", "v if w else g(w)", "(t := g(v), t)",
+            "[*xs, v, *xs]", "{**kw, 'a': v}", "{*xs, v}", "(v, *xs)", "lambda a=v, *b, c=w, **d: (a, b, c, d)",
+            "[q for q in xs if q]", "{q: v for q in xs}", "{q for q in xs for r in xs}", "sum(q for q in xs)",
+            "not v", "-w", "v is w", "v in xs", "v and w or xs", "xs[0][w:w]", "f'{f\'{v!r:>{w}}\'!s:^{w}}'"]
+  ctxs = [
+      "def f(v, w, xs, kw):\n  return %s\n",
+      "def f(v, w, xs, kw):\n  out = []\n  for v in xs:\n    out.append(%s)\n  return out\n",
+      "def f(v, w, xs, kw):\n  r = None\n  for v in xs:\n    if v:\n      r = %s\n    else:\n      continue\n  return r\n",
+      "def f(v, w, xs, kw):\n  while w:\n    w -= 1\n    r = %s\n    if r:\n      break\n  else:\n    r = 0\n  return r\n",
+      "def f(v, w, xs, kw):\n  return [%s for v in xs]\n",
+      "def f(v, w, xs, kw):\n  return {v: %s for v in xs if v}\n",
+      "def f(v, w, xs, kw):\n  try:\n    r = %s\n  except ValueError as e:\n    r = e\n  finally:\n    w = 0\n  return r\n",
+      "def f(v, w, xs, kw):\n  with open(v) as fh, open(v):\n    for v in fh:\n      yield %s\n",
+      "class K:\n  def m(self, v, w, xs, kw):\n    for v in xs:\n      for w in xs:\n        print(%s)\n",
+      "async def f(v, w, xs, kw):\n  async for v in xs:\n    await g(%s)\n",
+      "def f(v, w, xs, kw):\n  match v:\n    case [w, *_]:\n      return %s\n    case _:\n      return None\n",
+  ]
+  pre = "def g(*a, **k): return a\n"
+  for ci, ctx in enumerate(ctxs):
+    for i in range(0, len(forms), 6):
+      body = ""
+      for j, fm in enumerate(forms[i:i + 6]):
+        body += ctx.replace("def f(", "def f%d(" % j).replace("class K:", "class K%d:" % j) % fm
+      out.append(("family-stack", pre + body))
   return out
 
 
